@@ -327,6 +327,40 @@ def r6_memo_monotone(c, facts):
                     n += 1
                     c.bad(R, 'memo-table-replaced:%s' % fn.qname, '%s assigns the memo table of an existing context' % fn.qname, fn=fn.qname)
     c.floor(R, 'uses of Context.cache', n, 3)
+    # every table access in cache()/lookup() is keyed by both the cursor and the production tag
+    for q, pnames in (('oal_model::grammar::Context::cache', ('insert', 'entry')), ('oal_model::grammar::Context::lookup', ('get', 'contains_key', 'get_mut', 'remove'))):
+        fn = c.anchor(R, q)
+        idx = MF.defs_index(fn)
+        for b, t in fn.calls():
+            cal = callee_of(t)
+            if not cal or 'HashMap' not in cal['def'] or P.strip(cal['def']).split('::')[-1] not in pnames or len(t['args']) < 2 or 'l' not in t['args'][1]:
+                continue
+            ks = MF.slice_back(fn, t['args'][1]['l'], idx, through_calls=False)
+            params = sorted(ks['args'] - {1})
+            inst = {'fn': q, 'access': P.strip(cal['def']).split('::')[-1], 'line': t['ln'], 'key_from_parameters': params}
+            if params == [2, 3]:
+                c.ok(R, inst)
+            else:
+                c.bad(R, '%s:memo-key-incomplete:%s' % (q.split('::')[-1], ','.join(str(x) for x in params)), '%s accesses a memo table with a key built from parameters %s only (expected the production tag and the cursor): a result recorded for one production answers the request of another at the same cursor' % (q, params), **inst)
+    # a hit is returned as stored: nothing filters or rewrites it
+    lk = c.anchor(R, 'oal_model::grammar::Context::lookup')
+    lidx = MF.defs_index(lk)
+    ret = MF.slice_back(lk, 0, lidx)
+    rnames = sorted({P.strip(n).split('::')[-1] for n, _, _ in ret['calls']} - {'get', 'cloned', 'clone', 'copied', 'as_ref', 'as_deref', 'borrow'})
+    gets = P.call_blocks(lk, 'HashMap::get')
+    none_after = []
+    if gets:
+        after = lk.reachable_from(gets[0][1]['target'])
+        for b, blk in lk.blocks():
+            if b not in after:
+                continue
+            for st in blk['stmts']:
+                if st['s'] == 'assign' and st['rv']['r'] == 'aggr' and st['rv'].get('variant') == 'None' and st['place']['l'] in ret['locals']:
+                    none_after.append(st['ln'])
+    if rnames or none_after:
+        c.bad(R, 'lookup:hit-post-processed:%s' % ','.join(rnames or ['None']), 'Context::lookup does not return the stored entry as it is (%s): some requests that were answered before are parsed again, the work is no longer linear' % (', '.join(rnames) or 'a hit is replaced by None'))
+    else:
+        c.ok(R, {'Context::lookup': 'returns the stored entry unfiltered'})
     # storing and hitting depend on the bypass switch only
     for q, callee in (('oal_model::grammar::Context::cache', 'HashMap::insert'), ('oal_model::grammar::Context::lookup', 'HashMap::get')):
         fn = c.anchor(R, q)
